@@ -382,8 +382,8 @@ func c06Suspended(r *harness.Run) {
 	if th {
 		order = append(order, "F-cond")
 	}
-	gens := map[string]Gen{"F-yieldacross": genYieldAcross(), "F-hostbody": genHostBody(), "F-cochain": genCoChain()}
-	names := []string{"F-yieldacross", "F-hostbody", "F-cochain"}
+	gens := map[string]Gen{"F-yieldacross": genYieldAcross(), "F-hostbody": genHostBody(), "F-cochain": genCoChain(), "F-cooverflow": genCoOverflow()}
+	names := []string{"F-yieldacross", "F-hostbody", "F-cochain", "F-cooverflow"}
 	for _, n := range order {
 		gens["S1/"+n] = mapGen(base[n], "S1/", suspendAtEmit(false))
 		names = append(names, "S1/"+n)
